@@ -569,4 +569,28 @@ theorem Di.isolate_idem' (s : Store K E) (h : Mirror s) (u : K) :
   by_cases hw : w = u
   · simp [hw]
   · simp [hw, dropKey_idem]
+
+/-- undirected `isolate` is idempotent -/
+theorem Un.isolate_idem' (s : Store K E) (h : Mirror s) (u : K) :
+    ∀ w, ((Un.isolate (Un.isolate s u).1 u).1.get w).out = ((Un.isolate s u).1.get w).out ∧
+         ((Un.isolate (Un.isolate s u).1 u).1.get w).inn = ((Un.isolate s u).1.get w).inn := by
+  have h1 := Un.isolate_spec' s h u
+  have hm : Mirror (Un.isolate s u).1 := Un.step_mirror s (.isolate u) h
+  have h2 := Un.isolate_spec' (Un.isolate s u).1 hm u
+  intro w
+  rw [(h2.2 w).1, (h2.2 w).2, (h1.2 w).1, (h1.2 w).2]
+  by_cases hw : w = u
+  · simp [hw]
+  · simp [hw, dropKey_idem]
+
+/-- after `isolate` the node is an orphan and no node lists it any more (directed) -/
+theorem Di.isolate_orphan' (s : Store K E) (h : Mirror s) (u : K) :
+    ((Di.isolate s u).1.get u).out = [] ∧ ((Di.isolate s u).1.get u).inn = [] ∧
+    ∀ w, vals ((Di.isolate s u).1.get w).out u = [] ∧ vals ((Di.isolate s u).1.get w).inn u = [] := by
+  have h1 := Di.isolate_spec' s h u
+  refine ⟨by rw [(h1.2 u).1]; simp, by rw [(h1.2 u).2]; simp, fun w => ?_⟩
+  rw [(h1.2 w).1, (h1.2 w).2]
+  by_cases hw : w = u
+  · simp [hw, vals]
+  · simp [hw, vals, dropKey, List.filter_filter]
 end G
